@@ -55,7 +55,7 @@ PROP = {
     "rule": "case = one workbook (generated from a per-case seed, or a corpus file re-saved) written with the standard or the light writer; every part is one request; "
             "the final request compares violations (must be none) and the decoded view. non-trivial = every part / decode request; distinct = distinct request line",
     "trusted_base": TB_COMMON + ["independent reader Umya/Spec/XmlLex.lean + Umya/Spec/Sml.lean (executed, not verified against the standards' text)", "zip crate"],
-    "assumptions": ["text without carriage returns (attributes: also without tab / line feed) for the channel theorems"],
+    "assumptions": [],
     "partial_clauses": ["whole-package well-formedness and decode equality are validated per file, not proved for all workbooks",
                         "drawings, charts, tables, pivot tables, VML bodies, theme, docProps: XML well-formedness / content type / relationships only",
                         "macro payload (vbaProject.bin) only via the corpus .xlsm files"],
